@@ -156,3 +156,36 @@ def spec_congruence_instances(hyps, goal):
 
 
 prelude.INSTANCE_GENERATORS.append(spec_congruence_instances)
+
+
+def _unfold_beq(a, ao, b, bo, n):
+    return t.eq(_beq(a, ao, b, bo, n), t.ite(t.le(n, t.ZERO), t.TRUE, t.and_(t.eq(t.select(a, t.add(ao, t.sub(n, t.ONE))), t.select(b, t.add(bo, t.sub(n, t.ONE)))), _beq(a, ao, b, bo, t.sub(n, t.ONE)))))
+
+
+_V3 = [('a', t.ARR), ('ao', t.INT), ('b', t.ARR), ('bo', t.INT), ('c', t.ARR), ('co', t.INT), ('n', t.INT)]
+Lemma('beq_symmetric', _V3[:4] + [('n', t.INT)], lambda v: t.eq(_beq(v['a'], v['ao'], v['b'], v['bo'], v['n']), _beq(v['b'], v['bo'], v['a'], v['ao'], v['n'])), induct=('n', 0),
+      ih_instances=lambda v: [{'a': v['a'], 'ao': v['ao'], 'b': v['b'], 'bo': v['bo']}], tags=('C02',),
+      defs=lambda v: [_unfold_beq(v['a'], v['ao'], v['b'], v['bo'], v['n']), _unfold_beq(v['b'], v['bo'], v['a'], v['ao'], v['n'])])
+Lemma('beq_transitive', _V3, lambda v: t.implies(t.and_(_beq(v['a'], v['ao'], v['b'], v['bo'], v['n']), _beq(v['b'], v['bo'], v['c'], v['co'], v['n'])), _beq(v['a'], v['ao'], v['c'], v['co'], v['n'])),
+      induct=('n', 0), ih_instances=lambda v: [{k: v[k] for k in ('a', 'ao', 'b', 'bo', 'c', 'co')}], tags=('C02',),
+      defs=lambda v: [_unfold_beq(v['a'], v['ao'], v['b'], v['bo'], v['n']), _unfold_beq(v['b'], v['bo'], v['c'], v['co'], v['n']), _unfold_beq(v['a'], v['ao'], v['c'], v['co'], v['n'])])
+
+
+def _payload(x):
+    return t.app('barr', t.ARR, x), t.app('boff', t.INT, x), t.app('blen', t.INT, x)
+
+
+def _sym_hint(v):
+    (a, ao, n), (b, bo, _) = _payload(v['x']), _payload(v['y'])
+    return [LEMMAS_['beq_symmetric'].stmt({'a': a, 'ao': ao, 'b': b, 'bo': bo, 'n': n})]
+
+
+def _trans_hint(v):
+    (a, ao, n), (b, bo, _), (c, co, _) = _payload(v['x']), _payload(v['y']), _payload(v['z'])
+    return [LEMMAS_['beq_transitive'].stmt({'a': a, 'ao': ao, 'b': b, 'bo': bo, 'c': c, 'co': co, 'n': n})]
+
+
+from pyvc.lemma import LEMMAS as LEMMAS_  # noqa
+Lemma('pyeq_symmetric', [('x', t.VAL), ('y', t.VAL)], lambda v: t.eq(t.app('pyeq', t.BOOL, v['x'], v['y']), t.app('pyeq', t.BOOL, v['y'], v['x'])), tags=('C02',), hints=_sym_hint)
+Lemma('pyeq_transitive', [('x', t.VAL), ('y', t.VAL), ('z', t.VAL)],
+      lambda v: t.implies(t.and_(t.app('pyeq', t.BOOL, v['x'], v['y']), t.app('pyeq', t.BOOL, v['y'], v['z'])), t.app('pyeq', t.BOOL, v['x'], v['z'])), tags=('C02',), hints=_trans_hint)
